@@ -131,6 +131,13 @@ structure Spec (κ ν : Type) where
   zipOn : List κ
   asDf : Bool
   useCache : Bool
+  /-- cache policy of `Node._before_run` (C05's subject; every theorem here holds for both
+  values): `false` = as originally pinned (input cache written before the readiness gate, a hit
+  is honoured even when a run would be refused); `true` = a hit and the cache write only for
+  admitted runs -/
+  gateCache : Bool
+  /-- `true` = a failed run clears the input cache (`_run_exception`) -/
+  clearOnFail : Bool
   /-- `output_column_map()`, total on the body outputs -/
   colmap : κ → κ
   /-- the body function, one uninterpreted symbol per output: arguments in `bodyInputs` order -/
@@ -301,10 +308,14 @@ def ready (cur : Cur κ ν) : Bool := cur.all fun kv => match kv.2 with | .nd =>
 
 variable [DecidableEq ν]
 
+/-- `use_cache and cache_hit [and a run would be admitted]` -/
+def isHit (s : Spec κ ν) (st : St κ ν) (cur : Cur κ ν) : Bool :=
+  s.useCache && decide (st.cached = some cur) && (ready cur || !s.gateCache)
+
 /-- one run of the for-node with the current input values `cur`; `order` is the completion
 order of the body nodes (a schedule) -/
 def run (s : Spec κ ν) (st : St κ ν) (cur : Cur κ ν) (order : List Nat) : St κ ν × Res :=
-  if s.useCache ∧ st.cached = some cur then (st, .ok)          -- cache hit: outputs as they are
+  if isHit s st cur then (st, .ok)                              -- cache hit: outputs as they are
   else if ready cur then
     match indexMapsOf (dataOf cur) (some s.iterOn) (some s.zipOn) with
     | .error e => (st, .raised e)                                -- raised before anything is touched
@@ -313,9 +324,9 @@ def run (s : Spec κ ν) (st : St κ ν) (cur : Cur κ ν) (order : List Nat) : 
       --  failure is collected like any other child's and the remaining graph still runs)
       let outs := evalOuts s cur maps order
       ({ children := build s maps st.children, outs,
-         cached := if s.useCache then some cur else none },
+         cached := if s.useCache && (outs.complete || !s.clearOnFail) then some cur else none },
        if outs.complete then .ok else .failedChild)
-  else ({ st with cached := if s.useCache then some cur else st.cached }, .readiness)
+  else ({ st with cached := if s.useCache && !s.gateCache then some cur else st.cached }, .readiness)
 
 /-- a history of runs -/
 def runs (s : Spec κ ν) (st : St κ ν) : List (Cur κ ν × List Nat) → St κ ν
@@ -435,6 +446,11 @@ def Covers (order : List Nat) (rows : Nat) : Prop := ∀ n, n < rows → n ∈ o
 /-- the children a build creates, as a function of the index maps alone -/
 def freshChildren (s : Spec κ ν) (maps : List (Dict κ)) : List (Child κ) :=
   addCollectors s (addBodies [] 0 maps) maps.length
+
+/-- mixed-radix digits of a row number for the given lengths (first position most significant) -/
+def digits : List Nat → Nat → List Nat
+  | [], _ => []
+  | _ :: rest, r => (r / prodLens rest) :: digits rest (r % prodLens rest)
 
 /-- number of rows for given lengths -/
 def rowCount (nested zipped : List (κ × Nat)) : Nat := prodLens (nested.map (·.2)) * zipCount zipped
